@@ -54,7 +54,7 @@ def demoExt : Ext Nat :=
 call, on the regenerated tables -/
 example :
     (formArgs (F := Nat) genCfg demoExt inTable
-      [⟨"In", [⟨"a", .scalar .int, none⟩, ⟨"l", .list (.nonNull (.scalar .string)), none⟩]⟩]
+      [⟨"In", [⟨"a", .scalar .int, none⟩, ⟨"l", .list (.nonNull (.scalar .string)), none⟩], Gen.inputNullTakesDefault⟩]
       [⟨"v", .scalar .int, none⟩] [("v", .go (.int .i64 7))]
       [⟨"x", .nonNull (.input "In")⟩, ⟨"y", .scalar .boolean⟩]
       [("x", .obj [("a", .var "v"), ("l", .list [.go (.str "s")])])]).called = true := by decide
@@ -80,7 +80,9 @@ theorem C11_current {F : Type} (ext : Ext F) (inputs : List (InputDef F))
 them (hash of each, strings and comments stripped).  An edit to any of them breaks this obligation; the
 correspondence then decides (mutating-resolver table of C11, argument streams of C04 / C02). -/
 def pinnedArgSkeleton : List (String × String) := [
-  ("Input.CoerceIn", "114c7466e8b9"),
+  ("Input.CoerceIn", "1ae44ebae6eb"),
+  ("Input.reflectSet", "7a298a1de3ad"),
+  ("Input.reflectSetKey", "b97163bbb51d"),
   ("List.CoerceIn", "342314fa8b37"),
   ("NonNull.CoerceIn", "07c35bfdab4c"),
   ("Root.formArgs", "4ce1628b3fc4"),
